@@ -2420,13 +2420,19 @@ L95:
 L115:
 	    ;
 	}
-/* Initialize heap Q and Q2 with rows held in Q(1:QLEN) */
-	q0 = qlen;
+/* Initialize heap Q and Q2 with the rows queued by the scan of column J. */
+/* They are found again by scanning the column once more (the queued rows */
+/* are the matched rows with D(I) < RINF). Reading them back from */
+/* Q(1:QLEN) is not safe: Q2 grows downwards from Q(N) in the same array */
+/* and overwrites entries not yet read as soon as QLEN plus the number of */
+/* rows at distance DMIN exceeds N. */
 	qlen = 0;
-	i__2 = q0;
-	for (kk = 1; kk <= i__2; ++kk) {
-	    k = q[kk];
+	i__2 = ip[j + 1] - 1;
+	for (k = ip[j]; k <= i__2; ++k) {
 	    i__ = irn[k];
+	    if (iperm[i__] == 0 || d__[i__] == rinf) {
+		goto L120;
+	    }
 	    if (csp <= d__[i__]) {
 		d__[i__] = rinf;
 		goto L120;
